@@ -34,23 +34,23 @@ _IGNORE_MESON_PARENT_DIR_PATTERNS = [
 
 _IGNORE_FILE_PATTERNS = [
     # LICENSE, LICENSE-MIT, LICENSE.txt
-    re.compile(r"^LICEN[CS]E([-\.].*)?$"),
-    re.compile(r"^COPYING([-\.].*)?$"),
+    re.compile(r"^LICEN[CS]E([-\.].*)?$", re.DOTALL),
+    re.compile(r"^COPYING([-\.].*)?$", re.DOTALL),
     # ".git" as file happens in submodules
     re.compile(r"^\.git$"),
     re.compile(r"^\.hgtags$"),
-    re.compile(r".*\.license$"),
+    re.compile(r".*\.license$", re.DOTALL),
     re.compile(r"^REUSE\.toml$"),
     # Workaround for https://github.com/fsfe/reuse-tool/issues/229
-    re.compile(r"^CAL-1.0(-Combined-Work-Exception)?(\..+)?$"),
-    re.compile(r"^SHL-2.1(\..+)?$"),
+    re.compile(r"^CAL-1.0(-Combined-Work-Exception)?(\..+)?$", re.DOTALL),
+    re.compile(r"^SHL-2.1(\..+)?$", re.DOTALL),
 ]
 
 _IGNORE_SPDX_PATTERNS = [
     # SPDX files from
     # https://spdx.github.io/spdx-spec/conformance/#44-standard-data-format-requirements
-    re.compile(r".*\.spdx$"),
-    re.compile(r".*\.spdx\.(rdf|json|xml|ya?ml)$"),
+    re.compile(r".*\.spdx$", re.DOTALL),
+    re.compile(r".*\.spdx\.(rdf|json|xml|ya?ml)$", re.DOTALL),
 ]
 
 # Combine SPDX patterns into file patterns to ease default ignore usage
@@ -79,7 +79,7 @@ def is_path_ignored(
         if subset_files is not None and path.resolve() not in subset_files:
             return True
         for pattern in _IGNORE_FILE_PATTERNS:
-            if pattern.match(name) and (
+            if pattern.fullmatch(name) and (
                 name != "REUSE.toml" or not include_reuse_tomls
             ):
                 return True
@@ -96,11 +96,11 @@ def is_path_ignored(
         ):
             return True
         for pattern in _IGNORE_DIR_PATTERNS:
-            if pattern.match(name):
+            if pattern.fullmatch(name):
                 return True
         if not include_meson_subprojects:
             for pattern in _IGNORE_MESON_PARENT_DIR_PATTERNS:
-                if pattern.match(parent_dir):
+                if pattern.fullmatch(parent_dir):
                     _LOGGER.info(
                         "ignoring '%s' because it is a Meson subproject", path
                     )
